@@ -607,6 +607,10 @@ func c40xScenario(t *testing.T, rt *rapid.T, st *vs.S) {
 			if len(w.saved) > 6 {
 				w.saved = w.saved[1:]
 			}
+			// restoring formerly canonical entries is only done with the indexer idle on the current
+			// chain: ChainView.blockHash reads the canonical hash before it validates the view's tail,
+			// an A->B->A switch inside that window (impossible for BlockChain) would hand it a stale hash
+			w.waitIdle()
 			tc.setCanonicalChain(sv[:h+1])
 			w.lastOp = "switch-branch"
 			w.reorged = true
